@@ -3,7 +3,7 @@ import re
 from .. import env, histgen, session, wire, scripts, refmatch as rm
 from ..runner import Prop, Stage, Result
 
-PROFILE = dict(reuse=0.6, weights=dict(delete=16, bind=12, message=52, server_event=8, sync=8, enum=4))
+PROFILE = dict(reuse=0.6, weights=dict(newer=4, delete=16, bind=12, message=52, server_event=8, sync=8, enum=4))
 TOK = re.compile(r'-?\d+\.\d{4}')
 
 
